@@ -150,6 +150,9 @@ def selector(s):
 def observe(ch, addr, calldata, exit_name):
     """call and extract the bytes that leave the contract through the named exit (None = not produced)"""
     from .evm import log_tuple
+    exit_name = exit_name.replace("+dirty_input", "")
+    exit_name = {"storage_return": "ret_cd", "storage_event": "lit_event", "storage_abi_encode": "ret_cd",
+                 "storage_custom_error": "custom_error_revert"}.get(exit_name, exit_name)
     r = ch.call(addr, calldata)
     if exit_name in ("ret_cd", "ret_mem", "ret_sto", "ret2", "abi_encode", "abi_encode_no_tuple", "abi_encode_method_id",
                      "lit_darr", "lit_darr1", "lit_struct", "lit_tuple", "lit_abi_encode"):
@@ -235,6 +238,24 @@ def run_type_config(job):
                 if got != exp:
                     out["mismatch"].append({"case": ci, "exit": name, "observed": None if got is None else got.hex(),
                                             "expected": exp.hex(), "calldata": (mids[fn] + data).hex()})
+            # the same exits fed with NON-ZERO byte-string padding in the calldata (accepted input; the emitted
+            # bytes must still be canonical).  dirty = {A, C, D, D2 variants}
+            dz = case.get("dirty")
+            if dz:
+                dA, dC, dD, dD2 = dz
+                dD = echo_int.to_bytes(32, "big") + dD[32:]
+                dD2 = echo_int.to_bytes(32, "big") + dD2[32:]
+                sub = {"ret_cd": dA, "ret_mem": dA, "ret_sto": dA, "ret2": dC, "ev": dC, "enc0": dA, "enc1": dA, "enc2": dC,
+                       "ext": dD, "ext2": dD2, "cerr": dC}
+                for name, fn, data, exp in plan:
+                    if fn not in sub:
+                        continue
+                    got = observe(ch, addr, mids[fn] + sub[fn], name)
+                    out["n"] += 1
+                    if got != exp:
+                        out["mismatch"].append({"case": ci, "exit": name + "+dirty_input",
+                                                "observed": None if got is None else got.hex(), "expected": exp.hex(),
+                                                "calldata": (mids[fn] + sub[fn]).hex()})
     except Exception as e:  # noqa
         out["error"] = f"run: {type(e).__name__}: {e} {traceback.format_exc()[-800:]}"
     return out
@@ -254,11 +275,18 @@ def r_raise(x: String[{n}]):
 @external
 def r_assert(c: bool, x: String[{n}]):
 {P}    assert c, x
+
+rs: String[{n}]
+
+@external
+def r_sto(x: String[{n}]):
+    self.rs = x
+{P}    raise self.rs
 """
 
 
 def run_reason_config(job):
-    src, cfg, n, cases = job   # cases: list of (encS = enc((string)) , encBS = enc((bool,string)) with bool=0)
+    src, cfg, n, cases = job   # cases: list of (encS = enc((string)), encBS = enc((bool,string)) with bool=0, dirty encS)
     from .configs import compile_src
     from .evm import Chain
     out = {"cfg": cfg.name, "mismatch": [], "n": 0, "error": None}
@@ -268,14 +296,15 @@ def run_reason_config(job):
         ch = Chain(cfg.evm)
         addr = ch.deploy(bytes.fromhex(c["bytecode"][2:]))
         err_sel = bytes.fromhex("08c379a0")
-        for ci, (eS, eBS) in enumerate(cases):
-            for fn, data in (("r_raise", eS), ("r_assert", eBS)):
-                r = ch.call(addr, mids[fn] + data)
+        for ci, (eS, eBS, dS) in enumerate(cases):
+            for fn, data in (("r_raise", eS), ("r_assert", eBS), ("r_sto", eS), ("r_raise+dirty_input", dS),
+                             ("r_sto+dirty_input", dS)):
+                r = ch.call(addr, mids[fn.split("+")[0]] + data)
                 got = None if r.ok else r.out
                 out["n"] += 1
                 if got != err_sel + eS:
                     out["mismatch"].append({"case": ci, "exit": fn, "observed": None if got is None else got.hex(),
-                                            "expected": (err_sel + eS).hex(), "calldata": (mids[fn] + data).hex()})
+                                            "expected": (err_sel + eS).hex(), "calldata": (mids[fn.split("+")[0]] + data).hex()})
     except Exception as e:  # noqa
         out["error"] = f"{type(e).__name__}: {e}"[:600]
     return out
@@ -288,6 +317,7 @@ def build_source_lit(t):
     T = d.vy(t)
     tl = ("darr", t, 2)
     nL = A.size_bound(("tuple", (("tuple", (t, ("uint", 8))),)))
+    nS = A.size_bound(("tuple", (t,)))
     k = min(max((A.size_bound(t) * 2 + 400) // 32, 24), 160)
     P = prelude(k)
     src = d.text() + f"""
@@ -298,8 +328,35 @@ struct W:
 event EL:
     a: DynArray[{T}, 2]
 
+event ES:
+    a: {T}
+
+error ErrS:
+    a: {T}
+
+st: {T}
 sink: uint256
 idx: uint256
+
+@external
+def sto_ret(x: {T}) -> {T}:
+    self.st = x
+{P}    return self.st
+
+@external
+def sto_log(x: {T}):
+    self.st = x
+{P}    log ES(a=self.st)
+
+@external
+def sto_enc(x: {T}) -> Bytes[{nS}]:
+    self.st = x
+{P}    return abi_encode(self.st)
+
+@external
+def sto_err(x: {T}):
+    self.st = x
+{P}    raise ErrS(a=self.st)
 
 @external
 def lit_darr(x: {T}) -> DynArray[{T}, 2]:
@@ -325,7 +382,7 @@ def lit_enc(x: {T}) -> Bytes[{nL}]:
 def lit_log(x: {T}):
 {P}    log EL(a=[x, x])
 """
-    return src, {"nL": nL}
+    return src, {"nL": nL, "nS": nS}
 
 
 def coq_pack_expr_lit(t, v, info):
@@ -335,7 +392,8 @@ def coq_pack_expr_lit(t, v, info):
             f"let eW := enc (TTuple [TTuple [t; TUInt 8]]) (VList [VList [v; VInt 7]]) in "
             f"pack [enc (TTuple [t]) (VList [v]); eL; enc (TTuple [TDArr t 2]) (VList [VList [v]]); eW; "
             f"enc (TTuple [TUInt 8; t]) (VList [VInt 7; v]); "
-            f"enc (TTuple [TBytes {info['nL']}]) (VList [VBytes eW])]")
+            f"enc (TTuple [TBytes {info['nL']}]) (VList [VBytes eW]); "
+            f"enc (TTuple [TBytes {info['nS']}]) (VList [VBytes (enc (TTuple [t]) (VList [v]))])]")
 
 
 def run_lit_config(job):
@@ -356,21 +414,118 @@ def run_lit_config(job):
         ch = Chain(cfg.evm)
         addr = ch.deploy(bytes.fromhex(c["bytecode"][2:]))
         for ci, case in enumerate(cases):
-            eA, eL, eL1, eW, eT, wL = case["enc"]
+            eA, eL, eL1, eW, eT, wL, wS = case["enc"]
+            sel_errs = selector(sig("ErrS", [t]))
             plan = [("lit_darr", "lit_darr", "ret_cd", eL), ("lit_darr1", "lit_darr1", "ret_cd", eL1),
                     ("lit_struct", "lit_struct", "ret_cd", eW), ("lit_tuple", "lit_tuple", "ret_cd", eT),
-                    ("lit_abi_encode", "lit_enc", "ret_cd", wL), ("lit_event", "lit_log", "lit_event", eL)]
-            for name, fn, kind, exp in plan:
-                if kind == "lit_event":
-                    from .evm import log_tuple
-                    r = ch.call(addr, mids[fn] + eA)
-                    got = log_tuple(r.logs[0])[2] if r.ok and len(r.logs) == 1 else None
-                else:
-                    got = observe(ch, addr, mids[fn] + eA, kind)
-                out["n"] += 1
-                if got != exp:
-                    out["mismatch"].append({"case": ci, "exit": name, "observed": None if got is None else got.hex(),
-                                            "expected": exp.hex(), "calldata": (mids[fn] + eA).hex()})
+                    ("lit_abi_encode", "lit_enc", "ret_cd", wL), ("lit_event", "lit_log", "lit_event", eL),
+                    ("storage_return", "sto_ret", "ret_cd", eA), ("storage_event", "sto_log", "lit_event", eA),
+                    ("storage_abi_encode", "sto_enc", "ret_cd", wS),
+                    ("storage_custom_error", "sto_err", "custom_error_revert", sel_errs + eA)]
+            # every exit once with the canonical calldata and once with NON-ZERO padding in the calldata
+            # (accepted by the decoder; what is emitted must still be canonical)
+            inputs = [("", eA)] + ([("+dirty_input", case["dirty"])] if case.get("dirty") else [])
+            for tag, data in inputs:
+                for name, fn, kind, exp in plan:
+                    got = observe(ch, addr, mids[fn] + data, kind)
+                    out["n"] += 1
+                    if got != exp:
+                        out["mismatch"].append({"case": ci, "exit": name + tag, "observed": None if got is None else got.hex(),
+                                                "expected": exp.hex(), "calldata": (mids[fn] + data).hex()})
     except Exception as e:  # noqa
         out["error"] = f"run: {type(e).__name__}: {e} {traceback.format_exc()[-800:]}"
+    return out
+
+
+# ---------------------------------------------------------------- narrower -> wider type scenarios
+# (python type tree of the NARROW type, vyper narrow, vyper wide, value)
+WIDEN = [
+    (("darr", ("darr", ("uint", 256), 2), 3), "DynArray[DynArray[uint256, 2], 3]", "DynArray[DynArray[uint256, 4], 3]",
+     [[11], [12, 13], [14]]),
+    (("darr", ("bytes", 2), 3), "DynArray[Bytes[2], 3]", "DynArray[Bytes[40], 3]", [b"a", b"bc", b""]),
+    (("darr", ("uint", 256), 2), "DynArray[uint256, 2]", "DynArray[uint256, 5]", [1, 2]),
+    (("sarr", ("darr", ("uint", 256), 2), 2), "DynArray[uint256, 2][2]", "DynArray[uint256, 4][2]", [[1], [2, 3]]),
+    (("string", 3), "String[3]", "String[50]", b"abc"),
+    (("darr", ("string", 3), 2), "DynArray[String[3], 2]", "DynArray[String[3], 4]", [b"ab", b"c"]),
+]
+
+
+def widen_source(kind, narrow, wide):
+    if kind == "storage":
+        return f"""
+s: {narrow}
+@external
+def f(x: {narrow}) -> {wide}:
+    self.s = x
+    return self.s
+@external
+def g(x: {narrow}) -> {wide}:
+    self.s = x
+    y: {wide} = self.s
+    return y
+"""
+    if kind == "internal":
+        return f"""
+@internal
+def _p(x: {narrow}) -> {narrow}:
+    return x
+@external
+def f(x: {narrow}) -> {wide}:
+    return self._p(x)
+@external
+def g(x: {narrow}) -> {wide}:
+    y: {wide} = self._p(x)
+    return y
+"""
+    if kind == "internal_tuple":
+        return f"""
+@internal
+def _p(x: {narrow}) -> ({narrow}, uint256):
+    return x, 5
+@external
+def f(x: {narrow}) -> ({wide}, uint256):
+    return self._p(x)
+@external
+def g(x: {narrow}) -> ({wide}, uint256):
+    a: {wide} = empty({wide})
+    b: uint256 = 0
+    a, b = self._p(x)
+    return a, b
+"""
+    if kind == "memory":
+        return f"""
+@external
+def f(x: {narrow}) -> {wide}:
+    y: {narrow} = x
+    return y
+@external
+def g(x: {narrow}) -> {wide}:
+    y: {narrow} = x
+    z: {wide} = y
+    return z
+"""
+    raise ValueError(kind)
+
+
+def run_widen_config(job):
+    cfg, items = job     # items: list of (idx, kind, src, calldata_args, expected)
+    from .configs import compile_src
+    from .evm import Chain
+    out = {"cfg": cfg.name, "mismatch": [], "n": 0, "error": None}
+    for idx, kind, src, data, exp in items:
+        try:
+            c = compile_src(src, cfg, formats=("bytecode", "method_identifiers"))
+            ch = Chain(cfg.evm)
+            addr = ch.deploy(bytes.fromhex(c["bytecode"][2:]))
+            for k, v in c["method_identifiers"].items():
+                fn = k.split("(")[0]
+                cd = int(v, 16).to_bytes(4, "big") + data
+                r = ch.call(addr, cd)
+                got = r.out if r.ok else None
+                out["n"] += 1
+                if got != exp:
+                    out["mismatch"].append({"idx": idx, "kind": kind, "fn": fn, "source": src, "calldata": cd.hex(),
+                                            "observed": None if got is None else got.hex(), "expected": exp.hex()})
+        except Exception as e:  # noqa
+            out["error"] = f"{kind}#{idx}: {type(e).__name__}: {e}"[:500]
     return out
